@@ -56,13 +56,5 @@ def jobs(tier):
         J.append(Job(name=f"f.public.{which}.N{n}", group="C16.f", harness="harness/C16_public.c", defines={"WHICH": which, "N": n}, real=["dbus/dbus-syntax.c", V, S], env=COMMON_ENV,
                      unwind=n + 7, unwindset=["strcmp.0:48"], timeout=600, extra=["--object-bits", "11"], encodes=["dbus_validate_" + which, "_dbus_string_init_const"],
                      bounds=f"every NUL-terminated C string of up to {n} bytes (full alphabet)", shape=f"public {which}, N={n}"))
-    # C16.g: the match-rule route (AddMatch / RemoveMatch / BecomeMonitor parser) gives the grammar's verdict for each name-valued key
-    for key, ref, ns in (("sender", 0, (2, 3, 4)), ("destination", 0, (3,)), ("interface", 1, (3,)), ("member", 2, (3,)), ("path", 3, (3,)), ("path_namespace", 3, (3,)), ("arg0namespace", 4, (3,))):
-        for n in ns:
-            J.append(Job(name=f"g.matchrule.{key}.N{n}", group="C16.g", harness="harness/C16_matchrule.c", defines={"KEYSTR": '"' + key + '"', "REF": ref, "N": n}, real=["dbus/dbus-list.c", V], env=["assert_stubs.c", "memfuncs.c", "pool_lock.c", "msg_model.c"],
-                         checks="assert", unwind=24, unwindset=["strcmp.0:48", "strlen.0:24"], timeout=900, mem_gb=16, extra=["--object-bits", "11", "--max-field-sensitivity-array-size", "200"],
-                         encodes=["bus_match_rule_parse", "tokenize_rule", "find_key", "find_value", "bus_match_rule_parse_arg_match", "_dbus_validate_bus_name", "_dbus_validate_interface", "_dbus_validate_member", "_dbus_validate_path", "_dbus_validate_bus_namespace"],
-                         stubs=["pool strings (R19); stolen / duplicated strings copied into static pools", "allocation never fails"],
-                         assumes=["value bytes contain no comma, apostrophe, backslash or NUL (quoting is C07.c)"],
-                         bounds=f"rule text {key}=<{n} arbitrary bytes>", shape=f"match rule {key}, N={n}"))
+    # C16.g (match-rule route, harness/C16_matchrule.c): not registered — the tokenizer over symbolic value bytes gave no verdict (N=2: solver out of memory at 16 GB)
     return J
